@@ -108,6 +108,36 @@ static void t_memchr(BP s, size_t n, size_t present, int c, int mis)
     winchk(0, pi, 0);
 }
 
+// memchr with an n far beyond the block while the byte IS present in it: defined (C11 7.24.5.1: "behaves as if it reads
+// the characters sequentially and stops as soon as a matching character is found" - the rawmemchr idiom memchr(s,c,SIZE_MAX)).
+// Not applicable to memrchr (starts at s+n-1) nor memcmp/memcpy (all n bytes are accessed).
+static bool has_byte(BP s, size_t len, int c)
+{
+    for (size_t i = 0; i < len; i++)
+        if (s[i] == (uint8_t)c)
+            return true;
+    return false;
+}
+static void t_memchr_huge(BP s, size_t len, int c, int mis)
+{
+    if (!has_byte(s, len, c))
+        return;
+    uint8_t *pi = I[0].put(s, len, PL, mis), *pr = R[0].put(s, len, PL, mis);
+    for (size_t n : HUGE_N)
+    {
+        setK("memchr", s, len);
+        setN(n);
+        setC(c);
+        K.cls = n == (size_t)-1 ? "n_max_byte_present" : "n_huge_byte_present";
+        void *ri = nullptr, *rr = memchr(pr, c, n);
+        CALL(ri = igc_memchr(pi, c, n));
+        if (off(ri, pi) != off(rr, pr))
+            bad("return", "returned %s%+ld, want %s%+ld", ri ? "s" : "NULL", ri ? off(ri, pi) : 0, rr ? "s" : "NULL", rr ? off(rr, pr) : 0);
+        note(F_memchr, 2);
+    }
+    winchk(0, pi, 0);
+}
+
 static const uint8_t A6[] = {0, 'a', 'A', 'b', 0x80, 0xFF};
 static const int CV[] = {0, 'a', 'A', 'b', 0x80, 0xFF, 'c', -128, -1, 256, 256 + 'a', -256 + 'b'};
 static Table TB;
@@ -142,6 +172,12 @@ MC_INIT
                 {
                     t_memchr(s.b, n, s.len, c, 0);
                     calls += 2;
+                }
+            for (int c : CV)
+                if (has_byte(s.b, s.len, c))
+                {
+                    t_memchr_huge(s.b, s.len, c, 0);
+                    calls += 3;
                 }
         }
         PL = AFTER;
@@ -325,6 +361,11 @@ MC_INIT
                         s[n] = t; // present only beyond n (visible in the BEFORE placement)
                     t_memchr(s, n, n + 1, tg, mis);
                     calls += 2;
+                    if (has_byte(s, n, tg))
+                    {
+                        t_memchr_huge(s, n, tg, mis);
+                        calls += 3;
+                    }
                 }
         PL = AFTER;
         mc::more_cases(calls - 1, calls - 1);
@@ -399,6 +440,8 @@ MC_INIT
                         if (n <= L)
                             t_memchr(b.data(), n, L, 0xFE, 0);
                     t_memchr(b.data(), L, L, 0xFE - 256, 1);
+                    t_memchr_huge(b.data(), L, 0xFE, 0);
+                    t_memchr_huge(b.data(), L, 0xFE - 256, 1);
                     b[L - 1] = 0xFE;
                     b[0] = 0xFE;
                     b[p] = s[p];
